@@ -48,7 +48,7 @@ def plan(tier):
                         'forall unsigned lengths outside the documented range (up to UINT_MAX): %s %s key setting returns 0, object byte-identical' % (nm, api),
                         defs={'CB': cb, 'OB_REJECT_SYM': 1, adef: 1}, timeout=900, unwind=100, mem_gb=8))
     return dict(
-        queries=qs, level='model_checking', pre=[pre_model_selftest] + ([pre_ll_diff] if any(q.ll for q in qs) else []),
+        queries=qs, level='model_checking', pre=[pre_engine_canaries, pre_model_selftest] + ([pre_ll_diff] if any(q.ll for q in qs) else []),
         functions=['skinny{64,128}_set_key', 'skinny{64,128}_set_tweaked_key', 'skinny{64,128}_set_key_inner', 'skinny{64,128}_set_tk1/2/3 (full and partial loads)',
                    'skinny{64,128}_ctr_set_key / _ctr_set_tweaked_key (dispatcher + generic back end)', 'skinny{64,128}_parallel_ecb_set_key', 'mantis_set_key (see C14 for Mantis argument classes)'],
         bounds={'key lengths': 'thorough: each length 0 .. 3*blk+16 individually for every entry point; quick: primary sizes, the remainder classes of the partial-load loops (+1, +3, +4, +blk-1 after each primary size) and the boundary rejects; one query per entry point with the length a symbolic unsigned outside the range',
